@@ -381,11 +381,15 @@ func runCase(c tcase, ws, st *e2e.Server, accepted chan net.Conn, rnd func(int) 
 	cdone, bdone := make(chan struct{}), make(chan struct{})
 	go cl.readLoop('b', cdone)
 	go bk.readLoop('c', bdone)
-	sync1 := func() {
-		waitUntil(15*time.Second, func() bool { return bk.received() >= cl.sent && cl.received() >= bk.sent })
+	sync1 := func() bool {
+		ok := waitUntil(10*time.Second, func() bool { return bk.received() >= cl.sent && cl.received() >= bk.sent })
 		cl.log(map[string]interface{}{"ev": "sync"})
+		return ok
 	}
-	sync1()
+	if !sync1() {
+		emit() // bytes were lost: the case is already rejected, do not wait at every later sync point
+		return
+	}
 	for _, op := range c.Ops {
 		n := sizeOf(op.Size, rnd)
 		if op.Op == "c2b" {
@@ -397,7 +401,10 @@ func runCase(c tcase, ws, st *e2e.Server, accepted chan net.Conn, rnd func(int) 
 				break
 			}
 		}
-		sync1()
+		if !sync1() {
+			emit()
+			return
+		}
 	}
 	// nobody has closed so far: neither side may have seen end-of-stream
 	cl.mu.Lock()
